@@ -107,7 +107,7 @@ def r2(run, db):
     for f in db.crate_fns("ractor"):
         if not in_scope(f) or not owned_locals(f, JOB):
             continue
-        if f.id.endswith("worker::Worker::handle"):
+        if re.search(r"worker::Worker::handle(::\{closure#0\})?$", f.id):
             continue     # default trait method: user-overridable no-op body
         bodies += 1
         run.saw(len(f.blocks), f)
